@@ -1,8 +1,588 @@
-//! C15 — stub, to be written.
+//! C15 — run data only scales counts. Synthetic gcno/gcda bytes from random CFGs and flows plus the
+//! gcno/gcda corpus of /repo/test go through the real `grcov::Gcno::compute` with gcda sequences of
+//! length 0–6 (shuffled, repeated k times, with mismatching members); the same cases, as abstract
+//! records, go through the Lean model (`gm_c15`); the C15 laws are evaluated on the
+//! implementation's own results.
+mod gcno;
 use corrlib::*;
+use gcno::*;
+use serde_json::{json, Value};
 
-pub fn run(_rep: &mut Report) {}
-pub fn replay(_rep: &mut Report, _case: &serde_json::Value) {}
+/// one notes file with a pool of gcda files and the gcda sequences to try
+struct Case {
+    notes: Notes,
+    gcno: Vec<u8>,
+    pool: Vec<Gcda>,
+    pool_bytes: Vec<Vec<u8>>,
+    /// which pool members are mismatching (must be rejected)
+    bad: Vec<bool>,
+    branch: bool,
+    /// generator knowledge, when the case is synthetic: per function (GenFn, per pool member flow)
+    fns: Vec<GenFn>,
+    flows: Vec<Vec<Option<Vec<u64>>>>,
+    origin: String,
+}
+
+fn case_json(c: &Case, seq: &[usize], what: &str) -> Value {
+    json!({
+        "origin": c.origin,
+        "branch": c.branch,
+        "gcno": hex(&c.gcno),
+        "gcdas": seq.iter().map(|&i| hex(&c.pool_bytes[i])).collect::<Vec<_>>(),
+        "bad": seq.iter().map(|&i| c.bad[i]).collect::<Vec<_>>(),
+        "model_req": compute_req(&c.notes, &seq.iter().map(|&i| &c.pool[i]).collect::<Vec<_>>(), c.branch),
+        "check": what,
+    })
+}
+
+fn gen_case(rng: &mut Rng, idx: u64) -> Case {
+    let version = match rng.below(8) {
+        0 | 1 | 2 => 42,
+        7 => 122,
+        _ => 48,
+    };
+    let checksum = rng.next() as u32;
+    let nf = rng.range(1, 3) as u32;
+    let small = rng.chance(1, 3);
+    let mut fns: Vec<GenFn> = (0..nf).map(|i| gen_fn(rng, version, i, small)).collect();
+    if nf > 1 && rng.chance(1, 10) {
+        // two functions with the same name in the same file: the later one wins in `functions`
+        let (n, f) = (fns[0].name.clone(), fns[0].file.clone());
+        fns[1].name = n;
+        fns[1].file = f.clone();
+        for (_, items) in fns[1].lines.iter_mut() {
+            for it in items.iter_mut() {
+                if let LineItem::File(x) = it {
+                    if x != b"other.h" {
+                        *x = f.clone();
+                    }
+                }
+            }
+        }
+    }
+    if nf > 1 && rng.chance(1, 12) {
+        fns[1].ident = fns[0].ident; // duplicate identifier: gcda records go to the later one
+    }
+    let mut recs = Vec::new();
+    for f in &fns {
+        recs.extend(f.recs());
+    }
+    let notes = Notes { version, checksum, recs };
+    let gcno = encode_gcno(&notes);
+    let npool = rng.below(5) as usize;
+    let huge = rng.chance(1, 15);
+    let mut pool = Vec::new();
+    let mut flows: Vec<Vec<Option<Vec<u64>>>> = Vec::new();
+    let mut bad = Vec::new();
+    for _ in 0..npool {
+        let mut per_fn: Vec<Option<Vec<u64>>> = Vec::new();
+        let mut parts: Vec<(&GenFn, Vec<u64>)> = Vec::new();
+        let mut order: Vec<usize> = (0..fns.len()).collect();
+        if rng.chance(1, 3) {
+            rng.shuffle(&mut order);
+        }
+        per_fn.resize(fns.len(), None);
+        for &i in &order {
+            if rng.chance(1, 6) {
+                continue; // function absent from this gcda
+            }
+            let walks = if rng.chance(1, 4) { 0 } else { rng.range(1, 5) };
+            let scale = if huge {
+                1u64 << rng.range(58, 62)
+            } else if rng.chance(1, 10) {
+                rng.range(1, 1 << 33)
+            } else {
+                1
+            };
+            let flow = gen_flow(rng, &fns[i], walks, scale);
+            per_fn[i] = Some(flow.clone());
+            parts.push((&fns[i], flow));
+        }
+        let mut d = gcda_for(version, checksum, &parts);
+        if rng.chance(1, 4) {
+            let at = rng.below(d.recs.len() as u64 + 1) as usize;
+            d.recs.insert(at, DRec::Other);
+        }
+        pool.push(d);
+        flows.push(per_fn);
+        bad.push(false);
+    }
+    // mismatching members
+    let nbad = if rng.chance(1, 2) { rng.range(1, 2) } else { 0 };
+    for _ in 0..nbad {
+        let mut d = if !pool.is_empty() && rng.chance(3, 4) {
+            pool[rng.below(pool.len() as u64) as usize].clone()
+        } else {
+            let parts: Vec<(&GenFn, Vec<u64>)> =
+                fns.iter().map(|f| (f, vec![1; f.arcs.len()])).collect();
+            gcda_for(version, checksum, &parts)
+        };
+        match rng.below(7) {
+            0 => d.version = if version == 48 { 42 } else { 48 },
+            1 => d.checksum = d.checksum.wrapping_add(1 + rng.below(5) as u32),
+            k => {
+                // function-level mismatch in one function record
+                let fidx: Vec<usize> = (0..d.recs.len())
+                    .filter(|&i| matches!(d.recs[i], DRec::Func { .. }))
+                    .collect();
+                if fidx.is_empty() {
+                    d.checksum ^= 0x8000_0000;
+                } else {
+                    let i = *rng.pick(&fidx);
+                    if let DRec::Func { len, ident, lsum, csum } = &mut d.recs[i] {
+                        match k {
+                            2 => *lsum = lsum.wrapping_add(1),
+                            3 => {
+                                if version >= 47 {
+                                    *csum ^= 1
+                                } else {
+                                    *lsum ^= 4
+                                }
+                            }
+                            4 => *ident = 1000 + *ident,
+                            5 => *len = 1,
+                            _ => {
+                                // wrong number of counters in the following record
+                                if let Some(DRec::Arcs { len, vals }) = d.recs.get_mut(i + 1) {
+                                    vals.push(3);
+                                    *len += 2;
+                                } else {
+                                    d.checksum ^= 2;
+                                }
+                            }
+                        }
+                    }
+                }
+            }
+        }
+        pool.push(d);
+        flows.push(vec![None; fns.len()]);
+        bad.push(true);
+    }
+    // truncated gcda (cut in the middle of the counters): also rejected
+    if !pool.is_empty() && !bad[0] && rng.chance(1, 8) {
+        let mut d = pool[0].clone();
+        if let Some(p) = d.recs.iter().position(|r| matches!(r, DRec::Arcs { vals, .. } if !vals.is_empty())) {
+            if let DRec::Arcs { vals, .. } = &mut d.recs[p] {
+                vals.pop();
+            }
+            d.recs.truncate(p + 1);
+            d.recs.push(DRec::Short);
+            pool.push(d);
+            flows.push(vec![None; fns.len()]);
+            bad.push(true);
+        }
+    }
+    let mut enc_rng = rng.fork();
+    let pool_bytes: Vec<Vec<u8>> = pool
+        .iter()
+        .map(|d| {
+            let mut b = encode_gcda(d, &mut enc_rng);
+            if let Some(DRec::Short) = d.recs.last() {
+                // cut inside the last counter
+                let n = b.len();
+                b.truncate(n.saturating_sub(4).max(12));
+                b.extend_from_slice(&[0, 0]);
+            }
+            b
+        })
+        .collect();
+    Case {
+        notes,
+        gcno,
+        pool,
+        pool_bytes,
+        bad,
+        branch: rng.chance(3, 4),
+        fns,
+        flows,
+        origin: format!("synthetic#{}", idx),
+    }
+}
+
+fn corpus_cases(rep: &mut Report, rng: &mut Rng) -> Vec<Case> {
+    let mut out = Vec::new();
+    let mut files = Vec::new();
+    fn walk(dir: &std::path::Path, files: &mut Vec<std::path::PathBuf>) {
+        if let Ok(rd) = std::fs::read_dir(dir) {
+            let mut es: Vec<_> = rd.filter_map(|e| e.ok()).map(|e| e.path()).collect();
+            es.sort();
+            for p in es {
+                if p.is_dir() {
+                    if p.is_symlink() {
+                        continue;
+                    }
+                    walk(&p, files);
+                } else if p.extension().map(|e| e == "gcno").unwrap_or(false) {
+                    files.push(p);
+                }
+            }
+        }
+    }
+    walk(std::path::Path::new("/repo/test"), &mut files);
+    let limit = if rep.thorough() { 320_000 } else { 40_000 };
+    for p in files {
+        let gcno = match std::fs::read(&p) {
+            Ok(b) => b,
+            Err(_) => continue,
+        };
+        if gcno.len() > limit {
+            rep.count("corpus.skipped_large");
+            continue;
+        }
+        let notes = match decode_gcno(&gcno) {
+            Some(n) => n,
+            None => {
+                rep.count("corpus.undecodable_gcno");
+                continue;
+            }
+        };
+        let mut pool = Vec::new();
+        let mut pool_bytes = Vec::new();
+        let gp = p.with_extension("gcda");
+        if let Ok(b) = std::fs::read(&gp) {
+            if let Some(d) = decode_gcda(&b) {
+                // a second, different run: the same records with other counter values
+                let mut d2 = d.clone();
+                for r in d2.recs.iter_mut() {
+                    if let DRec::Arcs { vals, .. } = r {
+                        for v in vals.iter_mut() {
+                            *v = (*v % 1000) * 3 + rng.below(4);
+                        }
+                    }
+                }
+                let mut er = rng.fork();
+                let b2 = encode_gcda(&d2, &mut er);
+                pool.push(d);
+                pool_bytes.push(b);
+                if decode_gcda(&b2).as_ref() == Some(&d2) {
+                    pool.push(d2);
+                    pool_bytes.push(b2);
+                }
+            } else {
+                rep.count("corpus.undecodable_gcda");
+            }
+        }
+        rep.count("corpus.files");
+        let n = pool.len();
+        out.push(Case {
+            notes,
+            gcno,
+            pool,
+            pool_bytes,
+            bad: vec![false; n],
+            branch: true,
+            fns: vec![],
+            flows: vec![],
+            origin: p.display().to_string(),
+        });
+    }
+    out
+}
+
+struct Pending {
+    case_idx: usize,
+    seq: Vec<usize>,
+    impl_out: String,
+    what: &'static str,
+}
+
+/// evaluate the C15 laws on the implementation for one case; returns (law, message, sequence)
+fn oracles(rep: &mut Report, c: &Case, rng: &mut Rng) -> Vec<(String, Vec<usize>)> {
+    let mut fails = Vec::new();
+    let good: Vec<usize> = (0..c.pool.len()).filter(|&i| !c.bad[i]).collect();
+    let run = |seq: &[usize]| {
+        let ds: Vec<Vec<u8>> = seq.iter().map(|&i| c.pool_bytes[i].clone()).collect();
+        run_compute(&c.gcno, &ds, c.branch)
+    };
+    let r0 = run(&[]);
+    let s0 = match &r0 {
+        Ok(r) => {
+            if !all_zero(r) {
+                fails.push(("no gcda, yet a count, an executed function or a taken branch is reported".to_string(), vec![]));
+            }
+            Some(structure(r))
+        }
+        Err(e) => {
+            rep.count(&format!("oracle.nogcda.{}", e.split(' ').take(2).collect::<Vec<_>>().join("_")));
+            None
+        }
+    };
+    // all good members, in order and shuffled
+    if !good.is_empty() {
+        let r1 = run(&good);
+        if let (Ok(r), Some(s0)) = (&r1, &s0) {
+            if &structure(r) != s0 {
+                fails.push(("line set / function set / branch slots differ from the no-gcda result".to_string(), good.clone()));
+            }
+        }
+        if r1.is_ok() && r0.is_err() {
+            fails.push(("computation fails without gcda but succeeds with gcda".to_string(), good.clone()));
+        }
+        for _ in 0..2 {
+            let mut sh = good.clone();
+            // longer histories: repeat some members
+            while sh.len() < 6 && rng.chance(1, 3) {
+                sh.push(*rng.pick(&good));
+            }
+            let base = run(&sh);
+            let mut sh2 = sh.clone();
+            rng.shuffle(&mut sh2);
+            let r2 = run(&sh2);
+            rep.count(&format!("oracle.order.len={}", sh.len()));
+            match (&base, &r2) {
+                (Ok(a), Ok(b)) => {
+                    if show_results(a) != show_results(b) {
+                        fails.push((format!("result depends on the order of the gcda files: {:?} vs {:?}", sh, sh2), sh2.clone()));
+                    }
+                }
+                (Err(a), Err(b)) => {
+                    if a.starts_with("panic") != b.starts_with("panic") {
+                        fails.push((format!("one order fails with {} the other with {}", a, b), sh2.clone()));
+                    }
+                    rep.count("oracle.order.both_fail");
+                }
+                (a, b) => fails.push((
+                    format!("one order is accepted and the other is not: {} / {}", show_compute(a), show_compute(b)),
+                    sh2.clone(),
+                )),
+            }
+        }
+        // k copies of one member
+        let m = *rng.pick(&good);
+        let k = rng.range(2, 6) as usize;
+        let one = run(&[m]);
+        let many = run(&vec![m; k]);
+        rep.count(&format!("oracle.kcopies.k={}", k));
+        match (&one, &many) {
+            (Ok(a), Ok(b)) => match scaled(a, k as u64) {
+                Some(want) => {
+                    if show_results(&want) != show_results(b) {
+                        fails.push((format!("{} copies of one gcda are not {} times one copy", k, k), vec![m; k]));
+                    }
+                }
+                None => fails.push(("k copies accepted although k times the counts overflow".to_string(), vec![m; k])),
+            },
+            (Ok(_), Err(e)) if e.starts_with("panic") && e.contains("overflow") => {
+                rep.count("oracle.kcopies.u64_overflow_panic");
+            }
+            (Err(e), Err(_)) => {
+                rep.count(&format!("oracle.kcopies.single_fails.{}", e.split(' ').next().unwrap_or("")));
+            }
+            (a, b) => fails.push((
+                format!("one copy: {} ; {} copies: {}", show_compute(a), k, show_compute(b)),
+                vec![m; k],
+            )),
+        }
+    }
+    // mismatching members are rejected wherever they stand
+    for b in 0..c.pool.len() {
+        if !c.bad[b] {
+            continue;
+        }
+        let mut seq = good.clone();
+        let at = rng.below(seq.len() as u64 + 1) as usize;
+        seq.insert(at, b);
+        let r = run(&seq);
+        rep.count("oracle.mismatch");
+        match &r {
+            Ok(_) => fails.push(("a mismatching gcda was accepted".to_string(), seq.clone())),
+            Err(e) if e.starts_with("panic") && !e.contains("overflow") => {
+                fails.push((format!("a mismatching gcda panics instead of failing with an error: {}", e), seq.clone()))
+            }
+            Err(_) => {}
+        }
+    }
+    // executed iff entered / recovered flow (generator knowledge)
+    if !c.fns.is_empty() && !good.is_empty() {
+        let r1 = run(&good);
+        if let Ok(res) = &r1 {
+            let dup_ident = c.fns.iter().enumerate().any(|(i, f)| c.fns.iter().skip(i + 1).any(|g| g.ident == f.ident));
+            for (fi, f) in c.fns.iter().enumerate() {
+                let later_same = c.fns.iter().skip(fi + 1).any(|g| g.name == f.name && g.file == f.file);
+                if later_same || dup_ident || !f.tree_ok {
+                    continue;
+                }
+                let entered: u128 = good
+                    .iter()
+                    .filter_map(|&g| c.flows[g][fi].as_ref())
+                    .map(|fl| fl[0] as u128)
+                    .sum();
+                let file = String::from_utf8_lossy(&f.file).to_string();
+                let name = String::from_utf8_lossy(&f.name).to_string();
+                let got = res.iter().find(|(k, _)| *k == file).and_then(|(_, cv)| cv.functions.get(&name)).map(|x| x.executed);
+                rep.count(if entered > 0 { "oracle.executed.entered" } else { "oracle.executed.never_entered" });
+                if got != Some(entered > 0) {
+                    fails.push((
+                        format!("function {} entered {} times but executed flag is {:?}", name, entered, got),
+                        good.clone(),
+                    ));
+                }
+            }
+        }
+    }
+    fails
+}
+
+fn nontrivial(c: &Case, seq: &[usize]) -> bool {
+    seq.iter().any(|&i| {
+        c.pool[i].recs.iter().any(|r| matches!(r, DRec::Arcs { vals, .. } if vals.iter().any(|&v| v > 0)))
+    })
+}
+
+pub fn run(rep: &mut Report) {
+    // a panic of the harness itself (not of the code under test) must be visible
+    if let Err(p) = guarded(std::panic::AssertUnwindSafe(|| run_inner(rep))) {
+        eprintln!("harness panicked: {}", p);
+        std::process::exit(2);
+    }
+}
+
+fn run_inner(rep: &mut Report) {
+    rep.rule = "synthetic: 1-3 functions over random CFGs (entry arc, forward skeleton to the exit block, back/self/parallel \
+                arcs, random spanning tree incl. the virtual exit->entry arc, 1/8 with a broken tree flag, fake flags, lines \
+                shared between blocks and foreign-file lines), gcno versions 402*/408*/B22*, gcda = arc counters of random \
+                walks (sometimes scaled to 2^58..2^62 or absent per function), sequences of 0-6 gcda: in order, shuffled with \
+                repeats, k copies, with version/checksum/function-checksum/ident/length/count mismatches and truncation; \
+                corpus: every decodable gcno(+gcda) under /repo/test. non-trivial = the gcda sequence carries a non-zero \
+                counter; distinct = distinct canonical model request"
+        .to_string();
+    let mut rng = Rng::new(rep.seed ^ 0xC15);
+    let mut cases = corpus_cases(rep, &mut rng);
+    let n = rep.budget(300, 20);
+    for i in 0..n {
+        cases.push(gen_case(&mut rng, i));
+    }
+
+    let mut reqs: Vec<String> = Vec::new();
+    let mut pend: Vec<Pending> = Vec::new();
+    let mut orng = rng.fork();
+    for (ci, c) in cases.iter().enumerate() {
+        rep.count(&format!("gcno.version={}", c.notes.version));
+        rep.count(&format!("pool.size={}", c.pool.len()));
+        // ---- property oracles on the implementation
+        for (msg, seq) in oracles(rep, c, &mut orng) {
+            rep.fail("oracle", None, msg.clone(), case_json(c, &seq, &msg));
+        }
+        // ---- tie: a few sequences per case through both sides
+        let all: Vec<usize> = (0..c.pool.len()).collect();
+        let good: Vec<usize> = all.iter().copied().filter(|&i| !c.bad[i]).collect();
+        let mut seqs: Vec<(Vec<usize>, &'static str)> = vec![(vec![], "compute")];
+        if !good.is_empty() {
+            seqs.push((good.clone(), "compute"));
+            seqs.push((good.clone(), "state"));
+            let mut sh = good.clone();
+            while sh.len() < 6 && rng.chance(1, 2) {
+                sh.push(*rng.pick(&good));
+            }
+            rng.shuffle(&mut sh);
+            seqs.push((sh, "compute"));
+            let m = *rng.pick(&good);
+            let k = rng.range(2, 5) as usize;
+            seqs.push((vec![m; k], "compute"));
+        } else {
+            seqs.push((vec![], "state"));
+        }
+        if all.len() > good.len() {
+            let mut sh = all.clone();
+            rng.shuffle(&mut sh);
+            seqs.push((sh, "compute"));
+            let b = *rng.pick(&all.iter().copied().filter(|&i| c.bad[i]).collect::<Vec<_>>());
+            seqs.push((vec![b], "compute"));
+        }
+        for (seq, what) in seqs {
+            let ds: Vec<&Gcda> = seq.iter().map(|&i| &c.pool[i]).collect();
+            let bytes: Vec<Vec<u8>> = seq.iter().map(|&i| c.pool_bytes[i].clone()).collect();
+            let (req, out) = if what == "compute" {
+                (compute_req(&c.notes, &ds, c.branch), show_compute(&run_compute(&c.gcno, &bytes, c.branch)))
+            } else {
+                (state_req(&c.notes, &ds), run_state(&c.gcno, &bytes))
+            };
+            rep.count(&format!("seq.len={}", seq.len()));
+            rep.count(&format!("impl.{}.{}", what, out.split(' ').take(if out.starts_with("err") { 2 } else { 1 }).collect::<Vec<_>>().join("_")));
+            rep.case(&req, nontrivial(c, &seq));
+            reqs.push(req);
+            pend.push(Pending { case_idx: ci, seq, impl_out: out, what });
+        }
+    }
+    let answers = run_model_named("gm_c15", &reqs, &rep.workdir, "gcno");
+    for (i, p) in pend.iter().enumerate() {
+        if i % 97 == 0 {
+            let cut = |s: &str| if s.len() > 600 { format!("{}…", &s[..600]) } else { s.to_string() };
+            rep.sample(json!({"request": cut(&reqs[i]), "impl": cut(&p.impl_out), "model": cut(&answers[i])}));
+        }
+        if answers[i] != p.impl_out {
+            rep.disagreements_checked += 1;
+            let c = &cases[p.case_idx];
+            let mut cj = case_json(c, &p.seq, p.what);
+            cj["impl"] = json!(p.impl_out);
+            cj["model"] = json!(answers[i]);
+            rep.fail(
+                "disagreement",
+                None,
+                format!("Gcno::{} differs from the model on {} (theorems C15_* no longer transfer)", p.what, c.origin),
+                cj,
+            );
+        }
+    }
+}
+
+pub fn replay(rep: &mut Report, case: &Value) {
+    let gcno = unhex(case["gcno"].as_str().unwrap_or(""));
+    let gcdas: Vec<Vec<u8>> = case["gcdas"]
+        .as_array()
+        .map(|a| a.iter().map(|v| unhex(v.as_str().unwrap_or(""))).collect())
+        .unwrap_or_default();
+    let bad: Vec<bool> = case["bad"]
+        .as_array()
+        .map(|a| a.iter().map(|v| v.as_bool().unwrap_or(false)).collect())
+        .unwrap_or_default();
+    let branch = case["branch"].as_bool().unwrap_or(true);
+    let r = run_compute(&gcno, &gcdas, branch);
+    let r0 = run_compute(&gcno, &[], branch);
+    rep.case(case["model_req"].as_str().unwrap_or(""), true);
+    // laws that can be re-evaluated from the bytes alone
+    if let Ok(z) = &r0 {
+        if !all_zero(z) {
+            rep.fail("oracle", None, "no gcda, yet something is reported as run".into(), case.clone());
+        }
+    }
+    if let (Ok(a), Ok(z)) = (&r, &r0) {
+        if structure(a) != structure(z) {
+            rep.fail("oracle", None, "structure differs from the no-gcda result".into(), case.clone());
+        }
+    }
+    if bad.iter().any(|&b| b) && r.is_ok() {
+        rep.fail("oracle", None, "a mismatching gcda was accepted".into(), case.clone());
+    }
+    let mut rev = gcdas.clone();
+    rev.reverse();
+    let rr = run_compute(&gcno, &rev, branch);
+    if let (Ok(a), Ok(b)) = (&r, &rr) {
+        if show_results(a) != show_results(b) {
+            rep.fail("oracle", None, "result depends on the gcda order".into(), case.clone());
+        }
+    }
+    if r.is_ok() != rr.is_ok() {
+        rep.fail("oracle", None, "one order accepted, the reverse not".into(), case.clone());
+    }
+    if gcdas.len() >= 2 && gcdas.iter().all(|g| *g == gcdas[0]) {
+        let one = run_compute(&gcno, &gcdas[..1], branch);
+        if let (Ok(o), Ok(m)) = (&one, &r) {
+            if scaled(o, gcdas.len() as u64).map(|s| show_results(&s)) != Some(show_results(m)) {
+                rep.fail("oracle", None, "k copies are not k times one copy".into(), case.clone());
+            }
+        }
+    }
+    if let Some(req) = case["model_req"].as_str() {
+        let m = run_model_named("gm_c15", &[req.to_string()], &rep.workdir, "replay");
+        let out = show_compute(&r);
+        if rep.failures.is_empty() && m[0] != out {
+            rep.disagreements_checked += 1;
+            rep.fail("disagreement", None, format!("impl {} / model {}", out, m[0]), case.clone());
+        }
+    }
+}
 
 fn main() {
     corrlib::run_main("C15", run, replay);
